@@ -65,6 +65,11 @@ def check(rep, model, tier):
         lv0 = ('lv', ('range', C(0), grp.N0, C(1)), 0)
         lv1 = ('lv', ('range', C(0), grp.N1, C(1)), 1)
         want_idx = T.add(T.mul(lv0, grp.N1), lv1)
+        if res is not None and res[0] == 'map' and res[1][0] == 'range' and res[2][0] == 'slice' and res[2][4] == NONE and \
+                T.sub(res[2][3], res[2][2]) == grp.N1:
+            # rows taken as consecutive slices flat[i*n1 : (i+1)*n1]: element j of row i is flat[i*n1 + j]
+            lv1_ = ('lv', ('range', C(0), grp.N1, C(1)), 1)
+            res = ('map', res[1], ('map', lv1_[1], T.index(res[2][1], T.add(res[2][2], lv1_))))
         if res is not None and res[0] == 'map' and res[2][0] == 'map' and res[1][0] == 'range' and res[2][1][0] == 'range':
             # a nested comprehension is the same element-wise definition as zeros((n0, n1)).tolist() + a store at [i][j]
             res = ('arr', ('map',), ((('path', (('lv', res[1], 0), ('lv', res[2][1], 1))), res[2][2], T.TRUE),))
